@@ -456,13 +456,14 @@ func checkC12(P *Program, r *Result, tier string) {
 				r.add("EXC-BRANCH", shortName(exFn), "fresh", "the exception is decoded into a fresh ApplicationException", P.pos(instrPos(exRead)), fresh, "")
 				retOK, retErrOK := false, false
 				if exCall == nil {
-					for _, ret := range returnsOf(um) {
-						if !guardedBy(ret, test, isExc) {
+					// (a shared exit is looked at once per way into it)
+					for _, rc := range retCases(um) {
+						if !guardedBy(rc.at, test, isExc) {
 							continue
 						}
-						ev := ret.Results[2]
+						ev := rc.results[2]
 						if mi, ok := ev.(*ssa.MakeInterface); ok && mi.X == recv {
-							if isRes(ret.Results[0], 0) && isRes(ret.Results[1], 2) {
+							if isRes(rc.results[0], 0) && isRes(rc.results[1], 2) {
 								retOK = true
 							}
 						}
@@ -495,8 +496,8 @@ func checkC12(P *Program, r *Result, tier string) {
 				r.add("EXC-BRANCH", shortName(um), "return", "a malformed exception payload surfaces the decoder's error", P.pos(um.Pos()), retErrOK, "")
 				// normal path returns method, seq, err of msg.FastRead
 				normOK := false
-				for _, ret := range returnsOf(um) {
-					if ex, ok := ret.Results[2].(*ssa.Extract); ok && ex.Tuple == ssa.Value(msgRead) && isRes(ret.Results[0], 0) && isRes(ret.Results[1], 2) {
+				for _, rc := range retCases(um) {
+					if ex, ok := rc.results[2].(*ssa.Extract); ok && ex.Tuple == ssa.Value(msgRead) && isRes(rc.results[0], 0) && isRes(rc.results[1], 2) {
 						normOK = true
 					}
 				}
